@@ -259,6 +259,9 @@ class WritableVersion(dns.zone.WritableVersion):
         cursor = self.nodes.cursor()  # pyright: ignore
         cursor.seek(name, False)
         updates = []
+        # When a cut goes away, the first NS owner met on each branch beneath it
+        # becomes a cut itself and keeps occluding its own subtree.
+        inner_cut: dns.name.Name | None = None
         while True:
             elt = cursor.next()
             if elt is None:
@@ -275,9 +278,17 @@ class WritableVersion(dns.zone.WritableVersion):
                 node = new_node
             assert isinstance(node, Node)
             if is_glue:
-                node.flags |= NodeFlags.GLUE
+                # Anything beneath a cut is occluded, including former cuts.
+                node.flags = NodeFlags.GLUE
+                self.delegations.discard(ename)
+            elif inner_cut is not None and ename.is_subdomain(inner_cut):
+                node.flags = NodeFlags.GLUE
+            elif node.get_rdataset(self.zone.rdclass, dns.rdatatype.NS) is not None:
+                node.flags = NodeFlags.DELEGATION
+                self.delegations.add(ename)
+                inner_cut = ename
             else:
-                node.flags &= ~NodeFlags.GLUE
+                node.flags = NodeFlags(0)
             # We don't update node here as any insertion could disturb the
             # btree and invalidate our cursor.  We could use the cursor in a
             # with block and avoid this, but it would do a lot of parking and
